@@ -2,6 +2,7 @@
 from . import core
 from . import formgen as fg
 from . import sdmodel as sm
+from . import evalcommon as ec
 
 PROP = 'C11'
 RULE = ('seeded histories of 10-50 RSModel operations over dependency shapes chain / diamond / fan-out / structure-in-the-'
@@ -22,7 +23,14 @@ SHAPES = {
     'diamond': ['$[0]∪$[1]', '$[3]\\$[1]', '$[3]∩$[0]', '$[4]∪$[5]', 'card($[6])>0'],
     'fanout': ['$[0]', 'ℬ($[3])', '$[3]×$[3]', 'card($[3])', '{$[3]}', 'Pr1($[2])'],
     'structmid': ['Pr1($[2])', 'Pr2($[2])', '$[3]∪$[4]', 'D{x∈$[0] | x∈$[5]}', 'card($[2])', '$[0]\\$[5]'],
+    # callers reach the edited data only through the body of a function / predicate
+    'funcs': [('function', '[a∈ℬ($[0])] a∩Pr1($[2])'), '$[3][$[0]]', ('function', '[a∈ℬ($[0])] a×$[1]'), '$[5][$[0]]', 'card($[4])',
+              ('predicate', '[a∈ℬ($[0])] a⊆Pr1($[2])'), ('axiom', '$[8][$[0]]'), ('function', '[a∈ℬ($[0])] $[3][a]∪a'), '$[10][$[0]]'],
+    # a constant set with structures typed over it (list order: X1 X2 C1 S1 S2 S3 S4 then terms - basic kinds are grouped)
+    'consts': [('structure', 'ℬ($[2])'), ('structure', 'ℬ($[0]×$[2])'), ('structure', 'ℬℬ($[2])'), '$[4]\\$[2]', 'Pr2($[5])\\$[2]', 'card($[4])', 'red($[6])'],
 }
+BASES = {'consts': [0, 1, 2, 2, 2]}
+STRUCTS = {'consts': [3, 4, 4, 5, 5, 6, 0]}
 DEFS = ['$[%d]∪$[%d]', '$[%d]\\$[%d]', '$[%d]∩$[%d]', 'Pr1($[%d])', 'Pr2($[%d])', 'D{x∈$[%d] | x∈$[%d]}', 'card($[%d])', 'card($[%d])>1', '$[%d]=$[%d]',
         'ℬ($[%d])', '{$[%d]}', '$[%d]×$[%d]', '$[%d]', 'debool($[%d])', 'X77∪$[%d]', '$[%d]∪', '', 'red({$[%d]})', 'D{x∈$[%d] | ∃y∈$[%d] (x,y)∈$[%d]}',
         'I{(a,b) | a:∈$[%d]; b:∈$[%d]; (a,b)∈$[%d]}', '∀x∈$[%d] x∈$[%d]', 'Fi1[$[%d]]($[%d])']
@@ -37,26 +45,34 @@ def history(rnd, hist_id, length):
     ops = [{'op': 'env.processor', 'mode': 'default'}, {'op': 'form.seed', 'seed': hist_id}, {'op': 'model.op', 'm': m, 'k': 'new'}]
     ops.append({'op': 'model.op', 'm': m, 'k': 'emplace', 'type': 'basic'})
     ops.append({'op': 'model.op', 'm': m, 'k': 'emplace', 'type': 'basic'})
-    ops.append({'op': 'model.op', 'm': m, 'k': 'emplace', 'type': 'structure', 'def': rnd.choice(['ℬ($[0]×$[0])', 'ℬ($[0]×$[1])', 'ℬ($[1]×ℬ($[0]))'])})
     shape = rnd.choice(sorted(SHAPES))
+    if shape == 'consts':
+        ops.append({'op': 'model.op', 'm': m, 'k': 'emplace', 'type': 'constant'})
+    ops.append({'op': 'model.op', 'm': m, 'k': 'emplace', 'type': 'structure', 'def': rnd.choice(['ℬ($[0]×$[0])', 'ℬ($[0]×$[1])', 'ℬ($[1]×ℬ($[0]))'])})
     for d in SHAPES[shape]:
-        ctype = 'axiom' if ('>' in d or '=' in d.replace('x=x', '')) and not d.startswith('D{') else 'term'
+        if isinstance(d, tuple):
+            ctype, d = d
+        else:
+            ctype = 'axiom' if ('>' in d or '=' in d.replace('x=x', '')) and not d.startswith('D{') else 'term'
         ops.append({'op': 'model.op', 'm': m, 'k': 'emplace', 'type': ctype, 'def': d})
-    for nm in range(rnd.randint(0, 4)):
-        ops.append({'op': 'model.op', 'm': m, 'k': 'addelem', 'uid': {'idx': rnd.randrange(2)}, 'name': f'el{nm}'})
+    bases = BASES.get(shape, [0, 1, 2])
+    structs = STRUCTS.get(shape, [2, 2, 2, 0, 5])
+    for nm in range(rnd.randint(0, 4) + (3 if shape == 'consts' else 0)):
+        ops.append({'op': 'model.op', 'm': m, 'k': 'addelem', 'uid': {'idx': rnd.choice(bases)}, 'name': f'el{nm}'})
     plan = [None] * len(ops)
     for _ in range(length):
         r = rnd.random()
         op = {'op': 'model.op', 'm': m}
         if r < 0.14:
-            op.update(k='addelem', uid={'idx': rnd.randrange(3)}, name=rnd.choice(['a', 'b', 'новый', 'x' + str(rnd.randint(0, 99))]))
+            op.update(k='addelem', uid={'idx': rnd.choice(bases)}, name=rnd.choice(['a', 'b', 'новый', 'x' + str(rnd.randint(0, 99))]))
         elif r < 0.28:
             keys = rnd.sample(range(1, 8), rnd.randint(0, 4))
-            op.update(k='settext', uid={'idx': rnd.randrange(3)}, texts={str(k): f'n{k}' for k in keys})
+            op.update(k='settext', uid={'idx': rnd.choice(bases)}, texts={str(k): f'n{k}' for k in keys})
         elif r < 0.40:
             pairs = [[rnd.randint(1, 5), rnd.randint(1, 5)] for _ in range(rnd.randint(0, 4))]
-            val = rnd.choice([{'s': [{'tuplev': p} for p in pairs]}, {'s': [{'t': [p[0], {'setv': [p[1]]}]} for p in pairs]}, {'setv': [p[0] for p in pairs]}, 3])
-            op.update(k='setstruct', uid={'idx': rnd.choice([2, 2, 2, 0, 5])}, value=val)
+            val = rnd.choice([{'s': [{'tuplev': p} for p in pairs]}, {'s': [{'t': [p[0], {'setv': [p[1]]}]} for p in pairs]}, {'setv': [p[0] for p in pairs]}, 3,
+                              {'s': [{'setv': p} for p in pairs]}])
+            op.update(k='setstruct', uid={'idx': rnd.choice(structs)}, value=val)
         elif r < 0.46:
             op.update(k='resetdata', uid={'idx': rnd.randrange(4)})
         elif r < 0.60:
@@ -77,6 +93,21 @@ def history(rnd, hist_id, length):
         ops.append({'op': 'model.snap', 'm': m, 'rebuild': True})
         plan.append('snap')
     return core.case(ops, kind='history', plan=plan, shape=shape)
+
+
+def acceptable(value, typ, base_keys):
+    """independent reading of 'structure data is valid for the base interpretation': every element sits in the current
+    interpretation of the base / constant set its position is typed by (integers: any)"""
+    if typ[0] == 'e':
+        if not isinstance(value, int) or isinstance(value, bool):
+            return False
+        if typ[1] == 'Z':
+            return True
+        keys = base_keys.get(typ[1])
+        return True if keys is None else value in keys
+    if typ[0] == 't':
+        return isinstance(value, tuple) and len(value) == len(typ[1]) and all(acceptable(v, t, base_keys) for v, t in zip(value, typ[1]))
+    return isinstance(value, frozenset) and all(acceptable(v, typ[1], base_keys) for v in value)
 
 
 def canon(j):
@@ -109,6 +140,11 @@ def judge(res, cs, cr):
             continue
         live, rebuilt = ev['snap'], ev['rebuilt']
         bad = None
+        base_keys = {}
+        for uid, val in live['values'].items():
+            if live['items'][uid]['type'] in ('basic', 'constant'):
+                keys = canon(val['sdata'])
+                base_keys[live['items'][uid]['alias']] = keys if isinstance(keys, frozenset) else None
         for uid, val in live['values'].items():
             item = live['items'][uid]
             rv = rebuilt['values'].get(uid)
@@ -130,6 +166,11 @@ def judge(res, cs, cr):
                     continue
                 if ev['struct_accepted'].get(uid) is False:
                     bad = bad or (f"structure-not-pruned:{last[0]['k']}", f"{item['alias']}: live structure data {val['sdata']} is not valid for the current base interpretation")
+                data = canon(val['sdata'])
+                if data not in (None, 'BIG') and item['typ']:
+                    res.count('structures_walked')
+                    if not acceptable(data, ec.parse_type(item['typ']), base_keys):
+                        bad = bad or (f"structure-not-pruned:{last[0]['k']}", f"{item['alias']} typed {item['typ']}: live structure data {val['sdata']} holds elements outside the current base interpretation {base_keys}")
                 continue
             if ctype in ('function', 'predicate'):
                 continue
